@@ -24,11 +24,12 @@ TSInit == \E k \in 1..Len(Shapes) :
             /\ hist = <<[act |-> <<"new", k, 0, 0, "ok">>, post |-> objs, live |-> live]>>
 ReadOnly(kind) == /\ Bounded /\ UNCHANGED <<objs, live>> /\ Log(<<kind, 0, 0, 0, "ok">>)
 Toks(o, i) == (0..(Shapes[cls].ntoks[o][i] - 1)) \cup {NaN}
-TSNext == /\ UNCHANGED cls
-          /\ \/ \E o \in Ids : \E i \in 1..objs[o].n : \E v \in Toks(o, i) :
+TSSetAttr == /\ UNCHANGED cls
+             /\ \E o \in Ids : \E i \in 1..objs[o].n : \E v \in Toks(o, i) :
                    \E how \in {"setattr", "setkey"} : SetAttr(o, i, v, how)
-             \/ Reset(1)
-             \/ \E kind \in ReadKinds : ReadOnly(kind)
+TSReset == UNCHANGED cls /\ Reset(1)
+TSReadOnly == UNCHANGED cls /\ \E kind \in ReadKinds : ReadOnly(kind)
+TSNext == TSSetAttr \/ TSReset \/ TSReadOnly
 ReadOnlyFrame == [][Last[1] \in ReadKinds => UNCHANGED <<objs, live>>]_tsvars
 TSImmutable == [][\A o \in live : Frozen(objs[o], objs'[o])]_tsvars
 \* hist is hidden from the fingerprint except for the read/write pattern of the history and
